@@ -775,3 +775,10 @@ mod tests {
         );
     }
 }
+
+#[cfg(feature = "verif-hooks")]
+impl Kernel {
+    pub(crate) fn verif_counts(&self) -> (usize, usize, usize) {
+        self.sockets.verif_counts()
+    }
+}
